@@ -176,6 +176,16 @@ package lisp
 
 //@ functype Map.Len
 //@   pure
+//@ functype Map.Get
+//@   like-repo-implementations
+//@ functype Map.Set
+//@   like-repo-implementations
+//@ functype Map.Del
+//@   like-repo-implementations
+//@ functype Map.Keys
+//@   like-repo-implementations
+//@ functype Map.Entries
+//@   like-repo-implementations
 
 //@ functype Profiler.Start
 //@   modifies nothing
@@ -551,3 +561,39 @@ package lisp
 //@   ensures-on-panic [balanced-on-panic] BAL(env)
 //@   ensures-on-panic [evalctx-restored-on-panic] preserved(LEnv.evalCtx)
 //@   property C05
+
+// ---------------------------------------------------------------- handler-bind / ignore-errors (C05 balance, C06 semantics)
+
+//@ pred argsOK(args, n) = args != nil && len(args.Cells) >= n && forall(j, 0, len(args.Cells), args.Cells[j] != nil)
+
+//@ pred BALrt(env) = env.Runtime == old(env.Runtime) && env.Runtime.Stack == old(env.Runtime.Stack)
+//@ pred BALframes(env) = len(env.Runtime.Stack.Frames) == old(len(env.Runtime.Stack.Frames))
+//@ pred BALconds(env) = len(env.Runtime.conditionStack) == old(len(env.Runtime.conditionStack))
+//@ pred BALcount(env) = env.Runtime.evalNesting == old(env.Runtime.evalNesting) && env.Runtime.evalDepth == old(env.Runtime.evalDepth)
+
+//@ func opHandlerBind
+//@   requires rtOK(env) && len(env.Runtime.Stack.Frames) >= 1 && argsOK(args, 1)
+//@   loop 2 (rangeindex) invariant [idx] -1 <= rangeindex && rangeindex < old(len(args.Cells)) - 1
+//@   loop 2 (rangeindex) invariant [keep] KEEP(env) && env.Runtime.evalDepth == old(env.Runtime.evalDepth)
+//@   loop 2 (rangeindex) invariant [ctx] preserved(LEnv.evalCtx)
+//@   ensures  [balanced-rt] BALrt(env)
+//@   ensures  [balanced-frames] BALframes(env)
+//@   ensures  [balanced-conditions] BALconds(env)
+//@   ensures  [balanced-counters] BALcount(env)
+//@   ensures  [evalctx-restored] preserved(LEnv.evalCtx)
+//@   ensures-on-panic [balanced-rt-on-panic] BALrt(env)
+//@   ensures-on-panic [balanced-frames-on-panic] BALframes(env)
+//@   ensures-on-panic [balanced-conditions-on-panic] BALconds(env)
+//@   ensures-on-panic [balanced-counters-on-panic] BALcount(env)
+//@   ensures-on-panic [evalctx-restored-on-panic] preserved(LEnv.evalCtx)
+//@   property C05 C06
+
+//@ func opIgnoreErrors
+//@   requires rtOK(env) && len(env.Runtime.Stack.Frames) >= 1 && argsOK(args, 0)
+//@   loop 1 (rangeindex) invariant [idx] -1 <= rangeindex && rangeindex < old(len(args.Cells))
+//@   loop 1 (rangeindex) invariant [keep] KEEP(env) && env.Runtime.evalDepth == old(env.Runtime.evalDepth)
+//@   loop 1 (rangeindex) invariant [ctx] preserved(LEnv.evalCtx)
+//@   ensures  [balanced] BAL(env)
+//@   ensures  [evalctx-restored] preserved(LEnv.evalCtx)
+//@   ensures-on-panic [balanced-on-panic] BAL(env)
+//@   property C05 C06
